@@ -43,8 +43,13 @@ func CheckFileTruth(r *Run, ptr string, data []byte, o fileTruthOpts) {
 	}
 	md := fv.Meta
 	// ---- layout ----
+	// "Block order" is the order of FileMetadata.DataBlocks: an engine-written file lists its
+	// blocks in the order their row data lies in the file, so the list is walked as it stands.
+	// (An external writer's file is only required to be laid out consistently.)
 	blocks := append([]BlockView(nil), fv.Blocks...)
-	sort.SliceStable(blocks, func(i, j int) bool { return blocks[i].Meta.RowDataOffset < blocks[j].Meta.RowDataOffset })
+	if o.External {
+		sort.SliceStable(blocks, func(i, j int) bool { return blocks[i].Meta.RowDataOffset < blocks[j].Meta.RowDataOffset })
+	}
 	off := 0
 	for _, b := range blocks {
 		if b.Meta.RowDataOffset != off {
